@@ -143,7 +143,9 @@ ExprMenu == <<
   Call("iif", <<Col("a"), Col("b"), Un("Minus", Col("c"))>>),
   Bin("And", Call("not", <<Col("a")>>), Call("isnull", <<Col("b")>>)),
   Bin("Eq", Call("not", <<Col("a")>>), Col("b")),
-  Bin("Minus", Bin("Minus", Col("a"), Col("b")), Bin("Minus", Col("c"), Num("1"))) >>
+  Bin("Minus", Bin("Minus", Col("a"), Col("b")), Bin("Minus", Col("c"), Num("1"))),
+  Call("f", <<Index(Col("a"), Num("1"))>>), Index(Call("f", <<Col("a")>>), Str("k")),
+  InE(Index(Col("a"), Num("1")), <<Call("f", <<>>)>>) >>
 
 Positions == {"where", "project", "extendNamed", "extendBare", "sumAgg", "sumAggBare", "sumKey", "sumKeyBare",
               "sort", "sort2", "take", "topN", "topBy", "joinOn", "joinOn2", "let", "renderVal",
